@@ -2320,8 +2320,11 @@ chld_cb(EV_P_ ev_child *c, int UNUSED(revents))
 			free_tasks = t;
 			nfree_tasks++;
 		}
-	} else if (UNLIKELY(t->w.reschedule_cb == NULL && !t->nsim)) {
-		/* we promised taskB_cb to kill this guy */
+	} else if (UNLIKELY(t->w.reschedule_cb == NULL && !t->nsim &&
+			    !ev_is_pending(&t->w))) {
+		/* we promised taskB_cb to kill this guy, unless the run for
+		 * the last occurrence is still to come in this very
+		 * iteration, then task_cb or that run's child will do it */
 		unsched(EV_A_ &t->w, 0);
 	}
 	free_chld(c);
